@@ -693,13 +693,13 @@ def reach_boolconst(body, starts):
 # ---------------------------------------------------------------------------
 # may-reachability under an assumption (necessary-condition rules)
 # ---------------------------------------------------------------------------
-def may_reach(body, targets, decide, start=0):
+def may_reach(body, targets, decide, start=0, avoid=()):
     """Is some block of `targets` reachable from `start` when `decide(bb, term)` restricts the successors of the
     switches it understands (it returns the list of allowed successor blocks, or None for 'all')?  Everything the
     decider does not understand stays non-deterministic, so the answer over-approximates: False is a proof that the
     targets cannot be reached under the assumption."""
     targets = set(targets)
-    seen = set()
+    seen = set(avoid)
     work = [start]
     while work:
         b = work.pop()
